@@ -93,10 +93,10 @@ func c06R1(p *core.Prog, r *core.Report) {
 			if g == nil || core.FuncPkg(g) == nil || core.FuncPkg(g).Path() != modPath(ocidirRel) {
 				return
 			}
-			if readers[g.Name()] {
+			if readers[canon(g)] {
 				rd = append(rd, c)
 			}
-			if writers[g.Name()] {
+			if writers[canon(g)] {
 				wr = append(wr, c)
 			}
 		})
